@@ -613,8 +613,21 @@ func c06Length(c *Ctx, p *Prog) {
 				if nbc, _ := callOf(a); nbc != nil && p.CalleeID(nbc.Common()) == M(idNextBlock) {
 					fromDrbg = true
 				}
+				// frames.Next(2) / ReadAtLeast / ReadFull: two bytes taken off the frame buffer parameter
+				if nx, _ := callOf(a); nx != nil && p.CalleeID(nx.Common()) == "(*bytes.Buffer).Next" {
+					if k, ok := intConst(nx.Common().Args[1]); ok && k == 2 {
+						if _, isParam := unspill(nx.Common().Args[0]).(*ssa.Parameter); isParam {
+							fromBuf = true
+						}
+					}
+				}
 				if sl, ok := a.(*ssa.Slice); ok {
 					if l, ok := constLen(sl.X.Type()); ok && l == 2 {
+						for _, rf := range p.CallsIn(dec, "io.ReadAtLeast") {
+							if k, ok := intConst(rf.Common().Args[2]); ok && k == 2 && bufObjKey(rf.Common().Args[1]) == bufObjKey(sl) {
+								fromBuf = true
+							}
+						}
 						// the 2-byte array filled by io.ReadFull from the frame buffer
 						for _, rf := range p.CallsIn(dec, "io.ReadFull") {
 							if bufObjKey(rf.Common().Args[1]) == bufObjKey(sl) {
